@@ -185,15 +185,10 @@ def eval_message(nested, node_path):
 
 # ---------------------------------------------------------------------------------------------
 # implementation side
-_parser = None
-
-
 def parse_path(expr):
-    global _parser
-    if _parser is None:
-        from pybufrkit.dataquery import NodePathParser
-        _parser = NodePathParser()
-    return _parser.parse(expr)
+    """the parsed expression (a fresh parser every time: what the harness reads must not depend on what was parsed before)"""
+    from pybufrkit.dataquery import NodePathParser
+    return NodePathParser().parse(expr)
 
 
 def impl_query(msg, expr):
@@ -525,10 +520,11 @@ def _evaluate(task):
     findings = []
 
     def finding(kind, stage, why, expr):
-        # F16c (open): compressed data, a selector that designates no subset, a path that raises: the nodes are
-        # filtered before the (empty) loop over the subsets, so the query raises where the uncompressed one is empty
+        # F16c (fix prepared: notes/C16_fix_empty_selection_compressed.diff; the model is the fixed code): compressed
+        # data, a selector that designates no subset, a path that raises: the unfixed code filters the nodes before the
+        # (empty) loop over the subsets, so the query raises where the uncompressed one (and the model) is empty
         flag = False
-        if expr and comp and stage in ('json-eval', 'compressed', 'model-vs-spec', 'selector'):
+        if expr and comp and stage in ('json-eval', 'compressed', 'model', 'selector'):
             try:
                 flag = select_subsets(parse_path(expr).subset_slice, n_sub) == [] and isinstance(impl.get(expr), str)
             except Exception:  # noqa
